@@ -368,14 +368,51 @@ def run(ck, facts):
         named = next((a for a in mt["arms"] if a["pat"].get("v") == "Named"), None)
         okt = False
         if named:
-            for x in C.walk(named["b"]):
-                if x.get("k") == "closure":
+            defs_ei = dict(flow.defs_of(ei))
+            ei_params = [p_.get("id") for p_ in ei["hir"].get("params", []) if isinstance(p_, dict)]
+            borrow_param = ei_params[-1] if ei_params else None      # (&mut self, typ, behind_ref)
+
+            def from_param(e_, pid, depth=0):
+                for y in C.walk(e_):
+                    if y.get("k") == "local":
+                        if y.get("id") == pid:
+                            return True
+                        d_ = defs_ei.get(y.get("id"))
+                        if d_ and d_[0] in ("expr", "destructure") and d_[1] is not None and depth < 4 and from_param(d_[1], pid, depth + 1):
+                            return True
+                return False
+
+            def chain_has_lifetimes(e_, depth=0):
+                # the iterator a closure parameter ranges over comes from the named type's own `lifetimes`
+                for y in C.walk(e_):
+                    if y.get("k") == "field" and y.get("n") == "lifetimes":
+                        return True
+                    if y.get("k") == "local" and depth < 5:
+                        d_ = defs_ei.get(y.get("id"))
+                        if d_ and d_[0] in ("expr", "destructure", "iter") and d_[1] is not None and chain_has_lifetimes(d_[1], depth + 1):
+                            return True
+                        # a vector filled by `push` in a loop: what is pushed
+                        for pz in C.walk(C.fn_body(ei)):
+                            if pz.get("k") == "mcall" and pz.get("m") in ("push", "extend", "insert") and C.strip(pz["recv"]).get("k") == "local" and C.strip(pz["recv"]).get("id") == y.get("id") \
+                                    and any(chain_has_lifetimes(a_, depth + 1) for a_ in pz.get("a") or []):
+                                return True
+                return False
+            for mc in C.walk(named["b"]):
+                if mc.get("k") != "mcall" or not mc.get("a"):
+                    continue
+                for x in mc["a"]:
+                    x = C.strip(x)
+                    if x.get("k") != "closure":
+                        continue
                     t = C.strip(x["body"])
                     if t.get("k") == "tup" and len(t["a"]) == 2:
                         a0 = C.strip(t["a"][0])
                         a1 = C.strip(t["a"][1])
-                        okt = a0.get("k") == "local" and a0.get("n") == "path_lifetime" and any(y.get("k") == "local" and y.get("n") == "borrow_lifetime" for y in C.walk(a1))
-        ck.expect(okt, "R3", "extend_implicit_lifetime_bounds/pair-order", "(path_lifetime, Some(borrow_lifetime))", "the implied bound for &'a T<'b> is not recorded as 'b: 'a (type lifetime longer than the borrow)", C.loc(ei))
+                        cparams = set()
+                        for p_ in x.get("params", []):
+                            cparams |= set(C.pat_bind_ids(p_))
+                        okt = okt or (a0.get("k") == "local" and a0.get("id") in cparams and chain_has_lifetimes(mc["recv"]) and from_param(a1, borrow_param) and not from_param(a0, borrow_param))
+        ck.expect(okt, "R3", "extend_implicit_lifetime_bounds/pair-order", "(a lifetime of the named type, Some(the borrow's lifetime))", "the implied bound for &'a T<'b> is not recorded as 'b: 'a (type lifetime longer than the borrow)", C.loc(ei))
     ln = core.fn("hir::lowering::LoweringContext::lower_named_lifetime")
     for fld in ("longer", "shorter"):
         res = flow.struct_field_sources(ln, "BoundedLifetime", fld)
